@@ -202,7 +202,20 @@ def _make_case(rng, i, *, limit=None):
     check = True if (iface == "class" or limit is not None) else rng.random() < 0.95
     # iteration budget: mostly ample; sometimes so small that the run normally ends WITHOUT reporting convergence
     budget = NMAIN if (limit is not None or rng.random() < 0.8) else rng.choice([1, 2, 3])
-    cfg = {"iface": iface, "shape": shape, "pform": pform, "PRD": PRD, "pn": pn, "wform": wform, "lam": [list(x) for x in lam],
+    pre = []
+    if iface == "class" and rng.random() < 0.5:
+        # call history: the same planner object first plans on another MDP (same shape with other action sets, or
+        # another number of states), then on this one
+        N2 = N if (wform == "vector" or rng.random() < 0.6) else (N + 1 if N < 6 else N - 1)
+        ma = rand_instance(rng, N2, K, m["PD"], 1, 2, 1)
+        if K >= 2:
+            while True:
+                av = [[1 if rng.random() < 0.6 else 0 for _ in range(K)] for _ in range(N2)]
+                if all(any(r) for r in av) and (N2 != N or av != m["avail"]):
+                    break
+            ma["avail"] = av
+        pre = [ma]
+    cfg = {"iface": iface, "shape": shape, "pre": pre, "pform": pform, "PRD": PRD, "pn": pn, "wform": wform, "lam": [list(x) for x in lam],
            "iform": iform, "IPD": IPD, "ip": ip, "force": force, "dtype": dtype, "check": check, "budget": budget,
            "rep": dict(REPS[rng.randrange(len(REPS))]) if iface == "class" else None,
            "limit": limit is not None}
@@ -215,7 +228,7 @@ def clamp_case(N, K, avail, P, PD, R, GN, GD, lam):
     pn = [[(12 // sum(row)) * x for x in row] for row in avail]
     cfg = {"iface": "class", "shape": "full", "pform": "none", "PRD": 12, "pn": pn, "wform": "float",
            "lam": [list(lam)] * N, "iform": "none", "IPD": 12, "ip": [list(r) for r in pn], "force": True,
-           "dtype": "f64", "check": True, "budget": NMAIN, "rep": dict(REPS[0]), "limit": False}
+           "dtype": "f64", "check": True, "budget": NMAIN, "rep": dict(REPS[0]), "limit": False, "pre": []}
     return {"m": m, "cfg": cfg}
 
 
@@ -336,6 +349,8 @@ class Runner:
                 for s in range(self.N):
                     v[self.spos[s]] = lam[s]
                 self.ew = torch.tensor(v, dtype=torch.float64)
+            self.pre = [build.build_mdp(pm, rng=random.Random(digest(pm)), explicit_list=True, **rep).mdp
+                        for pm in c.get("pre", [])]
             self.prior = None
             if c["pform"] == "shared":
                 row = [0.0] * self.K
@@ -363,8 +378,11 @@ class Runner:
                 v = r.state_values.detach().double().tolist()
                 return {"pi": pi, "q": q, "v": v, "conv": bool(r.converged), "its": int(r.iterations)}
             from msdm.algorithms.entregpolicyiteration import EntropyRegularizedPolicyIteration
-            res = EntropyRegularizedPolicyIteration(iterations=n, entropy_weight=self.ew,
-                                                    policy_prior=self.prior).plan_on(self.b.mdp)
+            planner = EntropyRegularizedPolicyIteration(iterations=n, entropy_weight=self.ew, policy_prior=self.prior)
+            for earlier in self.pre:
+                planner.plan_on(earlier)            # same planner object, another MDP; its result is not judged here
+                self.calls += 1
+            res = planner.plan_on(self.b.mdp)
             pi, q, v = [], [], []
             for s in range(N):
                 sl = self.b.slabel[s]
@@ -392,16 +410,27 @@ def log_ratio(p, prior):
     return max(LZERO * U, q20(math.log(r)))
 
 
-def event(case, pi, qv):
+def fine40(x):
+    return round(F(x) * 2 ** 40)
+
+
+def event(case, pi, qv, fine=False):
     c = case["cfg"]
     N, K = case["m"]["N"], case["m"]["K"]
     e = {"pi": [[q20(pi[s][a]) for a in range(K)] for s in range(N)],
          "L": [[log_ratio(pi[s][a], c["pn"][s][a] / c["PRD"]) if c["pn"][s][a] > 0 else LZERO * U
                 for a in range(K)] for s in range(N)]}
+    e["fine"] = 0
     if qv is None:
         e.update(hq=0, q=[], v=[])
     else:
         e.update(hq=1, q=[[q20(x) for x in row] for row in qv[0]], v=[q20(x) for x in qv[1]])
+        if fine and all(abs(x) < 256 for row in qv[0] for x in row) and all(abs(x) < 256 for x in qv[1]):
+            # the returned q, v in units of 2^-40, two limbs (exact: a float is a dyadic rational)
+            qf = [[fine40(x) for x in row] for row in qv[0]]
+            vf = [fine40(x) for x in qv[1]]
+            e.update(fine=1, qh=[[x >> 20 for x in row] for row in qf], ql=[[x & (U - 1) for x in row] for row in qf],
+                     vh=[x >> 20 for x in vf], vl=[x & (U - 1) for x in vf])
     return e
 
 
@@ -447,13 +476,14 @@ def record_trace(case, corrupt=None):
                 notes.add("prefix-run-converged-early")
         else:
             qv = None
-        evs.append(event(case, pi, qv))
+        evs.append(event(case, pi, qv, fine=(j == last and conv and c["dtype"] == "f64")))
     T = {k: m[k] for k in INST_KEYS}
     T.update(LN=[x[0] for x in c["lam"]], LD=[x[1] for x in c["lam"]], PRD=c["PRD"], pn=c["pn"],
              IPD=c["IPD"], ip=c["ip"],
              unif=1 if all(x * sum(m["avail"][s]) == c["PRD"] for s, r in enumerate(c["pn"]) for x in r if x > 0) else 0,
              f32=1 if c["dtype"] == "f32" else 0, ev=evs, conv=1 if conv else 0, its=cits - first,
-             orc=1 if (oracle_sized(m) and c["dtype"] == "f64") else 0, tail=1 if first > 0 else 0)
+             orc=1 if (oracle_sized(m) and c["dtype"] == "f64") else 0, tail=1 if first > 0 else 0,
+             pre=[{"N": pm["N"], "K": pm["K"]} for pm in c.get("pre", [])])
     if first > 0:
         T["ip"], T["IPD"] = [[1] * K for _ in range(N)], K     # unused: Start of a tail is not compared
     return T, {"main": main, "calls": rn.calls, "notes": sorted(notes), "first": first}
@@ -497,6 +527,21 @@ def py_report(T):
         a2 = sum((e["pi"][s][a] * e["L"][s][a]) >> 20 for a in live)
         ev.append(a1 - _muldivsat(a2, *lam[s]))
     out = {"mag": 1, "look": look, "d": d, "delta": delta, "evalres": ev}
+    if T["f32"] == 0 and e.get("fine") == 1:
+        D = T["PD"] * T["GD"]
+        fr = []
+        for s in range(N):
+            row = []
+            for a in range(K):
+                if not av[s][a]:
+                    row.append(0)
+                    continue
+                qf = e["qh"][s][a] * U + e["ql"][s][a]
+                E = qf * D - sum(T["P"][s][a][t] * T["R"][s][a][t] for t in range(N)) * T["GD"] * 2 ** 40 \
+                    - sum(T["P"][s][a][t] * T["GN"] * (e["vh"][t] * U + e["vl"][t]) for t in range(N))
+                row.append(E if abs(E) < 90 * U else (LIM if E > 0 else -LIM))
+            fr.append(row)
+        out["fine"] = fr
     if T["orc"] == 1 and T["unif"] == 1:
         vs = pyoracle.optimal_value(T)
         out["qstar"] = [[math.floor(pyoracle.q_from_v(T, vs, s, a) * U) if av[s][a] else 0 for a in range(K)]
@@ -511,6 +556,13 @@ def crosscheck(T, rep, tag):
     mine = py_report(T)
     for k, v in mine.items():
         got = rep.get(k)
+        if k == "fine":
+            # TLC saturates at +-LIM beyond 100 * 2^20; below 90 * 2^20 the two must agree exactly
+            ok = all((g == w) or (abs(w) == LIM and abs(g) >= 90 * U and (g > 0) == (w > 0))
+                     for gr, wr in zip(got, v) for g, w in zip(gr, wr))
+            if not ok:
+                raise TLCFailure(f"fine look-ahead residuals disagree on {tag}: TLC {got} vs Python {v}")
+            continue
         if got != v:
             raise TLCFailure(f"TLA+ arithmetic and the independent Python re-computation disagree on {tag} field {k}: "
                              f"TLC {got} vs Python {v}")
@@ -526,7 +578,7 @@ DRIFT_FLAGS = {"initial-policy-differs-from-configured", "iterate-policy-not-nor
 
 
 def shape_of(c):
-    return f"weight={c['wform']},prior={c['pform']},dtype={c['dtype']}"
+    return f"weight={c['wform']},prior={c['pform']},dtype={c['dtype']}" + (",planner-reused" if c.get("pre") else "")
 
 
 CLAMP_SIG = "C19:EntropyRegularizedPolicyIteration.plan_on:unavailable-action-competes-through-clamped-zero-prior"
@@ -534,7 +586,8 @@ CLAMP_SIG = "C19:EntropyRegularizedPolicyIteration.plan_on:unavailable-action-co
 
 def full_shape(c):
     return (f"weight={c['wform']},prior={c['pform']},init={c['iform']},force={int(c['force'])},dtype={c['dtype']},"
-            f"reward={c['shape']},budget={c.get('budget', NMAIN)}")
+            f"reward={c['shape']},budget={c.get('budget', NMAIN)}"
+            + (f",planner-first-used-on-{[(pm['N'], pm['K']) for pm in c['pre']]}" if c.get("pre") else ""))
 
 
 MAX_REPORTS = 30            # at most this many VIOLATION reports per run of the check (the rest is counted)
@@ -615,6 +668,10 @@ def judge_cases(ctx, cases, *, corrupt=None, drop_event=None, label="trace", cov
             continue
         ctx.count("runs_reporting_convergence")
         ctx.count(f"converged_{c['iface']}_{c['dtype']}")
+        if c.get("pre"):
+            ctx.count("converged_on_a_reused_planner_object")
+        if r["rep"].get("fine"):
+            ctx.count("fine_lookahead_judged")
         if (k % 3 == 0 or c["limit"]) and r["rep"].get("mag") == 1:
             crosscheck(T, r["rep"], f"trace {k}")
             ctx.count("arithmetic_crosschecks")
